@@ -445,6 +445,14 @@ bool lab_sink_has_request(struct upipe *sink, struct urequest *req)
     for (int i = 0; i < s->nreqs; i++) if (s->reqs[i] == req) return true;
     return false;
 }
+int lab_sink_count_match(struct upipe *sink, bool (*match)(struct urequest *, void *), void *arg)
+{
+    struct rsink *s = rsink_from_upipe(sink);
+    int n = 0;
+    for (int i = 0; i < s->nreqs; i++) if (match(s->reqs[i], arg)) n++;
+    return n;
+}
+
 void lab_sink_provide_all(struct upipe *sink)
 {
     struct rsink *s = rsink_from_upipe(sink);
